@@ -115,8 +115,11 @@ def run(tier, seed):
                 ck.fail('the decoder left through sys.exit() instead of failing with an ordinary error', rp | {'message': real[2]}, 'system_exit')
             elif real[0] == 'error' and real[1] not in ('Hang', 'AssertionError', 'UnicodeDecodeError', 'IndexError', 'AttributeError', 'KeyError', 'ValueError', 'JSONDecodeError', 'RecursionError', 'TypeError'):
                 ck.fail('unexpected exception class ' + real[1], rp | {'message': real[2]}, 'exception_class')
-            if real[0] != 'error' and real[-2 if real[0] == 'doc' else -1]:
-                ck.fail('decoder wrote to stdout while decoding', rp | {'stdout': real[-2 if real[0] == 'doc' else -1][:200]}, 'stdout_noise')
+            outtxt = real[2] if real[0] == 'nodoc' else real[3]
+            if real[0] == 'invalid-json':
+                ck.fail('decoding yields text that is not a JSON document: ' + real[2], rp, 'invalid_json')
+            if real[0] != 'error' and outtxt:
+                ck.fail('decoder wrote to stdout while decoding', rp | {'stdout': outtxt[:200]}, 'stdout_noise')
             compare(ck, None, b, real, model, None)
         # ---- the same inputs in ONE `python -O` interpreter: the outcome of every input must be what it is with assertions enabled
         hexes = [b.hex() for _, b, _ in inputs]
